@@ -482,7 +482,23 @@ func vfWriteFile(stem string, x []byte, variant uint64) string {
 	if err := os.WriteFile(p, x, 0o644); err != nil {
 		panic(err)
 	}
-	switch (variant / 32) % 4 {
+	switch (variant / 32) % 5 {
+	case 4:
+		// <dir>/<symlink to a sub-directory elsewhere>/../<name>: the kernel resolves the link
+		// before "..", so this names the file NEXT TO the link's target; a decoy with other
+		// content sits where a purely textual clean-up of the path would look
+		other := filepath.Join(dir, stem+"-elsewhere")
+		link := filepath.Join(dir, stem+"-dirlink")
+		os.Remove(link)
+		if os.MkdirAll(filepath.Join(other, "sub"), 0o755) == nil && os.Symlink(filepath.Join(other, "sub"), link) == nil {
+			decoy := []byte("%PDF-1.4\n%\xe2\xe3\xcf\xd3\ndecoy\n")
+			if bytes.HasPrefix(x, []byte("%PDF")) {
+				decoy = []byte("\x89PNG\r\n\x1a\ndecoy")
+			}
+			if os.WriteFile(filepath.Join(other, name), x, 0o644) == nil && os.WriteFile(p, decoy, 0o644) == nil {
+				return link + string(filepath.Separator) + ".." + string(filepath.Separator) + name
+			}
+		}
 	case 1:
 		l1 := filepath.Join(dir, stem+".link")
 		os.Remove(l1)
@@ -989,7 +1005,12 @@ func vfRoutes(x []byte, limit uint32, want *MIME) error {
 		kind     string
 		consumed func() int
 	)
-	switch (h >> 16) % 9 {
+	switch (h >> 16) % 10 {
+	case 9: // a seekable reader the caller has already read from: detection concerns what is left
+		junk := []byte("\x00\x01envelope read by the caller before\xff\n")
+		br := bytes.NewReader(append(append([]byte(nil), junk...), x...))
+		_, _ = io.CopyN(io.Discard, br, int64(len(junk)))
+		sr, kind, consumed = br, "*bytes.Reader positioned behind bytes the caller consumed", func() int { return len(x) - br.Len() }
 	case 8:
 		d := &vfDecoyReader{data: x, head: len(x) / 3}
 		sr, kind, consumed = d, "reader that also has Len/Size/Buffered methods describing only its buffered head", func() int { return d.off }
@@ -1221,8 +1242,42 @@ func vfGenLimit(t *rapid.T, n int) uint32 {
 }
 
 // vfGenAnyInput draws an input from the broad distribution used by several checks.
+// vfEncodeWide re-encodes text as UTF-16 or UTF-32 (LE/BE) behind the matching byte-order mark.
+func vfEncodeWide(s string, width int, be bool) []byte {
+	var out []byte
+	put := func(v uint32) {
+		for i := 0; i < width; i++ {
+			sh := uint(8 * i)
+			if be {
+				sh = uint(8 * (width - 1 - i))
+			}
+			out = append(out, byte(v>>sh))
+		}
+	}
+	put(0xFEFF)
+	for _, r := range s {
+		if width == 2 && r >= 0x10000 {
+			r -= 0x10000
+			put(0xD800 + uint32(r>>10))
+			put(0xDC00 + uint32(r&0x3ff))
+			continue
+		}
+		put(uint32(r))
+	}
+	return out
+}
+
+var vfWideDocs = []string{"{\"type\":\"Feature\",\"a\":[1,2]}", "{\"a\":1}\n{\"b\":2}\n", "a,b,c\n1,2,3\n4,5,6\n", "#!/usr/bin/env python\nprint(1)\n", "BEGIN:VCARD\nVERSION:3.0\nEND:VCARD\n",
+	"<?xml version=\"1.0\"?><rss version=\"2.0\"></rss>", "<html><head><title>t</title></head></html>", "<svg xmlns=\"http://www.w3.org/2000/svg\"/>", "plain words, caf\u00e9\n", "WEBVTT\n\n00:01.000 --> 00:02.000\nhi\n", "<?php echo 1;"}
+
 func vfGenAnyInput(t *rapid.T) []byte {
-	switch rapid.IntRange(0, 5).Draw(t, "inkind") {
+	switch rapid.IntRange(0, 6).Draw(t, "inkind") {
+	case 6: // text re-encoded as UTF-16 / UTF-32 behind its byte-order mark
+		doc := rapid.SampledFrom(vfWideDocs).Draw(t, "widedoc")
+		if rapid.Bool().Draw(t, "widetextish") {
+			doc = vfGenTextish(t)
+		}
+		return vfEncodeWide(doc, rapid.SampledFrom([]int{2, 2, 2, 4}).Draw(t, "width"), rapid.Bool().Draw(t, "be"))
 	case 0:
 		return rapid.SliceOfN(rapid.Byte(), 0, 64).Draw(t, "rand")
 	case 1:
@@ -1300,6 +1355,31 @@ func vfDictSweep[C any](t *testing.T, prop, failSub string, toks []string, build
 	}
 	vfStats.Subchecks["dict"] = fmt.Sprintf("%s; %d literals of the tree under test, this shard ran %d cases", desc, len(toks), n)
 	return true
+}
+
+// vfSelfSum writes, into bytes 148..155 of a text document of at least 512 bytes, the octal
+// digits of the tar header checksum of its own first block (sum of the 512 bytes with those
+// eight counted as spaces) followed by `tail`: the one computed value a signature check in the
+// tree depends on. digits+len(tail) must be 8. Returns nil when the sum does not fit.
+func vfSelfSum(doc []byte, digits int, tail string) []byte {
+	if len(doc) < 512 || digits+len(tail) != 8 {
+		return nil
+	}
+	out := append([]byte(nil), doc...)
+	s := 0
+	for i := 0; i < 512; i++ {
+		if i >= 148 && i < 156 {
+			s += ' '
+		} else {
+			s += int(out[i])
+		}
+	}
+	f := fmt.Sprintf("%0*o", digits, s)
+	if len(f) != digits || f[0] == '0' {
+		return nil
+	}
+	copy(out[148:], f+tail)
+	return out
 }
 
 // vfDictText are the dictionary entries that are plain printable ASCII without quotes,
